@@ -283,6 +283,19 @@ func c06Directed() []C06Case {
 			})
 		}
 	}
+	// default-setting on and the declared media type spelled with parameters: the body is re-encoded
+	// after a default was filled in, under the media type and not under the header's text
+	objL := &GSchema{HasTypes: true, Types: []string{"object"}, Props: map[string]*GSchema{
+		"name": {HasTypes: true, Types: []string{"string"}}, "lang": {HasTypes: true, Types: []string{"string"}, Default: "en"}}}
+	for _, ct := range []string{"application/json; charset=utf-8", "application/json;charset=UTF-8", "application/json; profile=x", "application/json"} {
+		for _, body := range []string{`{"name":"n"}`, `{"name":"n","lang":"fr"}`, `{"name":1}`} {
+			ct, body := ct, body
+			add(ct, body, func(c *C06Case) {
+				c.Content = map[string]*GSchema{"application/json": objL}
+				c.Defaults = true
+			})
+		}
+	}
 	return out
 }
 
